@@ -315,8 +315,22 @@ func (s *Store[K, V]) GetWithSecodary(key K) (V, bool, error) {
 	shard := s.shards[index]
 	shardEntry, ok := s.getFromShard(key, h, shard)
 	if ok {
+		// a hit in memory is reported to the policy exactly as in Get, otherwise
+		// the policy of a hybrid cache never learns which entries are read
+		s.policy.hits.Add(1)
+		idx := s.getReadBufferIdx()
+		var send ReadBufItem[K, V]
+		send.hash = h
+		send.entry = shardEntry.entry
+
+		pb := s.stripedBuffer[idx].Add(send)
+		if pb != nil {
+			s.drainRead(pb.Returned)
+			s.stripedBuffer[idx].Free()
+		}
 		return shardEntry.value, true, nil
 	}
+	s.policy.misses.Add(1)
 
 	var result setShardResult[K, V]
 	var entryCost int64
